@@ -326,6 +326,125 @@ pub async fn scenario(idc: u32, events: Vec<Ev>) -> Obs {
     obs
 }
 
+
+// ------------------------------------------------------------------------------------------------
+// link flows while deliveries are parked in the session (the peer's SESSION window is closed)
+// ------------------------------------------------------------------------------------------------
+/// The peer's session incoming-window is 1: the first delivery goes out, the next `k` are held back by the
+/// session.  The receiver asks for the link state (`echo`) at that moment, reopens the session window later,
+/// and then grants ONE more credit - from the delivery-count it last learnt from the sender (the echoed flow)
+/// advanced by the deliveries received since, as a receiver does.  The sender may then start one delivery.
+pub async fn parked_scenario(k: usize) -> (Vec<(String, String)>, Vec<String>, Option<String>) {
+    let mut fails = vec![];
+    let mut auto = Auto::default();
+    auto.max_frame_size = 512;
+    auto.accept_transfers = true;
+    auto.incoming_window = 1;
+    let mut c = match scen::open_client(auto, 512).await {
+        Ok(c) => c,
+        Err(e) => return (fails, vec![], Some(e)),
+    };
+    let mut session = match scen::begin(&mut c, Session::builder()).await {
+        Ok(s) => s,
+        Err(e) => return (fails, vec![], Some(e)),
+    };
+    let sender = match drive(&mut c.peer, Sender::builder().name("s1").target("q").sender_settle_mode(SenderSettleMode::Settled).attach(&mut session), scen::H).await {
+        Some(Ok(s)) => s,
+        _ => return (fails, vec![], Some("attach failed".into())),
+    };
+    let lib_handle = c.peer.links.last().map(|l| l.lib_handle).unwrap_or(0);
+    let our_handle = c.peer.links.last().map(|l| l.our_handle).unwrap_or(0);
+    let (tx, _log, _task) = scen::spawn_sender_task(sender);
+    settle(&mut c.peer, 1).await;
+    let credit0 = (k + 1) as u32;
+    c.peer.grant(0, lib_handle, credit0);
+    settle(&mut c.peer, 1).await;
+    for _ in 0..=k {
+        let _ = tx.send(SendCmd::Send { body_len: 20 });
+    }
+    settle(&mut c.peer, 2).await;
+    let (started, _) = deliveries_started(&c.peer.trace, lib_handle);
+    if started != 1 {
+        return (fails, trace_to_strings(&c.peer.trace), Some(format!("parked scenario: {started} deliveries on the wire with a session window of 1 (expected 1)")));
+    }
+    // the receiver asks for the link state
+    let mark = c.peer.trace.len();
+    let mut f = c.peer.flow_for(0);
+    f.handle = Some(Handle(our_handle));
+    f.delivery_count = Some(1);
+    f.link_credit = Some(credit0 - 1);
+    f.echo = true;
+    f.incoming_window = 0;
+    c.peer.send(0, Performative::Flow(f));
+    settle(&mut c.peer, 2).await;
+    let reported = c.peer.trace[mark..].iter().find_map(|w| match (&w.body, w.dir) {
+        (Body::Perf(Performative::Flow(f)), Dirn::FromLib) if f.handle.as_ref().map(|h| h.0) == Some(lib_handle) => f.delivery_count,
+        _ => None,
+    });
+    let Some(reported) = reported else {
+        return (fails, trace_to_strings(&c.peer.trace), Some("parked scenario: the echo request was not answered".into()));
+    };
+    // the receiver's count: what the sender said, advanced by what arrives afterwards
+    let mut rcv_dc = reported;
+    // reopen the session window: the parked deliveries arrive
+    let mut f = c.peer.flow_for(0);
+    f.incoming_window = 1000;
+    c.peer.send(0, Performative::Flow(f));
+    settle(&mut c.peer, 3).await;
+    let (started2, _) = deliveries_started(&c.peer.trace, lib_handle);
+    rcv_dc = rcv_dc.wrapping_add((started2 - started) as u32);
+    if started2 != k + 1 {
+        return (fails, trace_to_strings(&c.peer.trace), Some(format!("parked scenario: {started2} deliveries after the window reopened (expected {})", k + 1)));
+    }
+    // one more credit, counted from the receiver's delivery-count
+    let mut f = c.peer.flow_for(0);
+    f.handle = Some(Handle(our_handle));
+    f.delivery_count = Some(rcv_dc);
+    f.link_credit = Some(1);
+    c.peer.send(0, Performative::Flow(f));
+    settle(&mut c.peer, 1).await;
+    for _ in 0..3 {
+        let _ = tx.send(SendCmd::Send { body_len: 20 });
+    }
+    settle(&mut c.peer, 3).await;
+    let (started3, _) = deliveries_started(&c.peer.trace, lib_handle);
+    let after_grant = started3 - started2;
+    if after_grant > 1 {
+        fails.push((
+            "exceeds-credit (link flow sent while deliveries were parked in the session)".to_string(),
+            format!(
+                "{k} deliveries were held back by the session when the receiver asked for the link state; the sender's flow reported delivery-count {reported} although only 1 delivery had been written before it; the receiver (count {rcv_dc} = {reported} + {k} received since) then granted 1 credit and the sender started {after_grant} deliveries"
+            ),
+        ));
+    }
+    if after_grant == 0 {
+        fails.push(("blocked-send-not-woken (parked)".to_string(), format!("after the grant of 1 credit (receiver count {rcv_dc}) no delivery was started although 3 sends are waiting")));
+    }
+    let _ = tx.send(SendCmd::Stop);
+    (fails, trace_to_strings(&c.peer.trace), None)
+}
+
+fn run_parked(out: &mut Outcome) -> u64 {
+    let mut n = 0;
+    for k in 1..=3usize {
+        let scen: Scenario<(Vec<(String, String)>, Vec<String>, Option<String>)> = Arc::new(move || Box::pin(parked_scenario(k)));
+        let ex = run_exec(vec![], &RunCfg::none(), &scen);
+        n += 1;
+        match ex.out {
+            Some((fails, trace, mach)) => {
+                if let Some(m) = mach {
+                    out.machinery_errors.push(m);
+                }
+                for (s, d) in fails {
+                    out.violation(s, d, json!({"kind": "parked", "k": k, "trace": trace}));
+                }
+            }
+            None => out.machinery_errors.push(format!("parked scenario k={k} died: {:?}", ex.panics)),
+        }
+    }
+    n
+}
+
 fn last_flow(evs: &[Ev]) -> Ev {
     evs.iter().rev().find(|e| !matches!(e, Ev::A1 | Ev::A3)).copied().unwrap_or(Ev::A1)
 }
@@ -405,6 +524,8 @@ pub fn run(ctx: &Ctx) -> Outcome {
         }
     }
     let sched = schedule_wakeup(ctx, deadline, &mut out);
+    let parked = run_parked(&mut out);
+    out.set("parked_delivery_scenarios", parked);
     out.set("states", states.max(1));
     out.set("transitions", transitions.max(1) + sched.1);
     out.set("traces_validated_against_impl", executions + sched.0);
